@@ -4,7 +4,7 @@
     (lifting) and Proofs/LockTableInst.v (the table regenerated from the
     current source, re-checked on every run). *)
 From Coq Require Import List String Bool Arith.
-From AGH Require Import Base.Conc Model.Guards Proofs.Conc Proofs.LockTable Gen.LockTable Proofs.LockTableInst.
+From AGH Require Import Base.Conc Model.Guards Proofs.Conc Proofs.LockTable Proofs.LockTablePairs Gen.LockTable Proofs.LockTableInst.
 Import ListNotations.
 Local Open Scope string_scope.
 Local Open Scope list_scope.
@@ -86,6 +86,82 @@ Theorem C05_no_deadlock : forall progs,
   forall s, reachable (init progs) s -> ~ deadlocked s.
 Proof. exact no_deadlock. Qed.
 Print Assumptions C05_no_deadlock.
+
+(** Explicit, pairwise form of the race half.  Take any number of threads that
+    only release what they hold (nothing else is assumed: they may run through
+    the access sites listed as findings) and any schedule.  Whenever thread 1
+    has executed the prefix [d1] of its program and thread 2 the prefix [d2] of
+    its own, they are not both at access sites [a1], [a2] of the checked table
+    (holding at least the locks the table lists there) that touch the same
+    field with at least one write.  So every race of the abstract machine
+    involves an access that is not a checked table entry. *)
+Theorem C05_checked_sites_never_race :
+  forall progs, Forall (fun p => balanced [] p = true) progs ->
+  forall s, reachable (init progs) s ->
+  forall pre t1 mid t2 post, threads s = pre ++ t1 :: mid ++ t2 :: post ->
+  forall p1 p2 d1 d2,
+    nth_error progs (List.length pre) = Some p1 ->
+    nth_error progs (List.length pre + S (List.length mid)) = Some p2 ->
+    p1 = d1 ++ rest t1 -> p2 = d2 ++ rest t2 ->
+  forall a1 a2, In a1 checked_accesses -> In a2 checked_accesses ->
+    a_field a1 = a_field a2 -> (a_write a1 || a_write a2) = true ->
+    subset_held (a_held a1) (held_after [] d1) = true ->
+    subset_held (a_held a2) (held_after [] d2) = true ->
+    False.
+Proof. exact checked_sites_exclusive. Qed.
+Print Assumptions C05_checked_sites_never_race.
+
+(** The generic statement behind it, for any table that passes the check. *)
+Theorem C05_sites_exclusive : forall ro tbl,
+  forallb (access_ok_ro ro) tbl = true ->
+  forall progs, Forall (fun p => balanced [] p = true) progs ->
+  forall s, reachable (init progs) s ->
+  forall pre t1 mid t2 post, threads s = pre ++ t1 :: mid ++ t2 :: post ->
+  forall p1 p2 d1 d2,
+    nth_error progs (List.length pre) = Some p1 ->
+    nth_error progs (List.length pre + S (List.length mid)) = Some p2 ->
+    p1 = d1 ++ rest t1 -> p2 = d2 ++ rest t2 ->
+  forall a1 a2, In a1 tbl -> In a2 tbl ->
+    a_field a1 = a_field a2 -> (a_write a1 || a_write a2) = true ->
+    subset_held (a_held a1) (held_after [] d1) = true ->
+    subset_held (a_held a2) (held_after [] d2) = true ->
+    False.
+Proof. exact sites_exclusive. Qed.
+Print Assumptions C05_sites_exclusive.
+
+(** The premises are satisfiable up to the last one (a thread at a write site
+    holding its guard, the other still in front of the lock); that the checked
+    table contains write sites at all is shown by [C05_conforming_thread]. *)
+Example C05_sites_exclusive_example :
+  let tbl := [Access "r" "fn" "querylog.queryLog.buffer" true
+                [("querylog.queryLog.bufferLock", W)] "x.go:1"] in
+  let p := [Acq "querylog.queryLog.bufferLock" W; Wr "querylog.queryLog.buffer";
+            Rel "querylog.queryLog.bufferLock" W] in
+  forallb (access_ok_ro (never_written tbl)) tbl = true /\
+  Forall (fun p => balanced [] p = true) [p; p] /\
+  subset_held [("querylog.queryLog.bufferLock", W)]
+    (held_after [] [Acq "querylog.queryLog.bufferLock" W]) = true /\
+  subset_held [("querylog.queryLog.bufferLock", W)] (held_after [] []) = false.
+Proof. exact sites_exclusive_example. Qed.
+Print Assumptions C05_sites_exclusive_example.
+
+(** Explicit form of the deadlock half: every cycle of the acquired-while-held
+    relation extracted from the current source (a re-entrant acquisition is a
+    cycle of length one) goes through a pair that is listed as a known
+    finding: the listed cycles are the only ones. *)
+Theorem C05_only_listed_lock_cycles :
+  forall c, incl c lock_order -> cycle c ->
+  exists o, In o c /\ listed known_keys (order_key o) = true.
+Proof. exact lock_cycles_listed. Qed.
+Print Assumptions C05_only_listed_lock_cycles.
+
+Example C05_cycle_example :
+  let ab := OrderPair "r" "f" ("a", W) ("b", W) "x.go:1" in
+  let ba := OrderPair "r" "g" ("b", W) ("a", W) "x.go:2" in
+  let ll := OrderPair "r" "h" ("l", R) ("l", R) "x.go:3" in
+  cycle [ab; ba] /\ cycle [ll] /\ ~ cycle [ab].
+Proof. exact cycle_example. Qed.
+Print Assumptions C05_cycle_example.
 
 Example C05_conforming_thread :
   conforms checked_accesses []
